@@ -387,6 +387,7 @@ def analyse_contract(rep, res, model, record):
     ee = bool(spec.get("early_exit"))
     alone = {}
     nontrivial = False
+    n_same = {}
     # run-time cross-check of T-frontierflow: the config object run_target_function received while a test
     # with a private config was running
     seen = set(res.get("explore_cfg_seen") or [])
@@ -435,7 +436,12 @@ def analyse_contract(rep, res, model, record):
             failure = dict(kind="failing-input",
                            what=f"{sig_of(t)} gives {g} after {[sig_of(e) for e in earlier]} (run {run['label']}, uid stream {run['uid']}) but {a} alone; contract {spec}",
                            case={"spec": spec, "run": run, "alone": a, "in_schedule": g}, sig=sig)
-            record(failure)
+            # the same defect shows up in every schedule of the contract: two instances per (contract, defect) are reported
+            n_same[sig["defect"]] = n_same.get(sig["defect"], 0) + 1
+            if n_same[sig["defect"]] <= 2:
+                record(failure)
+            else:
+                rep.count("failures_not_repeated", sig["defect"])
     # model: the extracted runner predicts exit code / path counts of every test of the whole-contract runs
     if model is not None and modelable(spec):
         for r in res["runs"]:
